@@ -38,3 +38,15 @@ pub fn c17_signcrypt_total(ct: &SignCryptCiphertext, sk: &SecretKey, dk: &SignCr
     let _ = ct.decrypt(sk);
     let _ = dk.decrypt(ct);
 }
+
+/// share combination returns for every share set: empty, single, any length (index 0 is read only
+/// after the combiner accepted at least two shares)
+pub fn c17_share_combination_total(ss: &[SignatureShare], ps: &[PublicKeyShare], ks: &[SecretKeyShare], ds: &[SignDecryptionShare], es: &[ElGamalDecryptionShare], ct: &SignCryptCiphertext)
+{
+    let _ = Signature::from_shares(ss);
+    let _ = PublicKey::from_shares(ps);
+    let _ = SecretKey::combine(ks);
+    let _ = SignCryptDecryptionKey::from_shares(ds);
+    let _ = ElGamalDecryptionKey::from_shares(es);
+    let _ = ct.decrypt_with_shares(ds);
+}
